@@ -208,6 +208,53 @@ structure VFeatEdge where
 def incidentPairs (es : List REdge) (v : Nat) : List (Nat × Rat) :=
   es.filterMap (fun x => if x.a = v then some (x.b, x.rot) else if x.b = v then some (x.a, x.rot) else none)
 
+/-! ## connection / operator assembly (round 6) -/
+/-- `utils.offset([A,B,C], k)` -/
+def rotl3 (A B C : Nat) (k : Nat) : Nat × Nat × Nat := if k = 0 then (A, B, C) else if k = 1 then (B, C, A) else (C, A, B)
+/-- `np.argmax` of a list of booleans: index of the first `True` (0 when there is none) -/
+def argmaxB : List Bool → Nat
+  | [] => 0
+  | true :: _ => 0
+  | false :: bs => if bs.any id then argmaxB bs + 1 else 0
+
+/-- coefficient `(a,b)` of `sp.csc_matrix((coeffs,(rows,cols)))`: duplicates are summed -/
+def tripCoeff (ts : List (Nat × Nat × Cpx)) (a b : Nat) : Cpx :=
+  ts.foldr (fun t acc => cadd (if a = t.1 ∧ b = t.2.1 then t.2.2 else czero) acc) czero
+
+/-- the four triplets one half-edge contributes, from an assembled `Entry` of the round-1 model -/
+def trip4 (e : Entry) : List (Nat × Nat × Cpx) := [(e.i, e.i, ofReal e.dii), (e.j, e.j, ofReal e.djj), (e.i, e.j, e.oij), (e.j, e.i, e.oji)]
+
+/-- contract of `U x = cmath.rect(1, 2*pi*x)`: conjugate of the opposite phase, period one turn -/
+structure UnitContract (U : Rat → Cpx) : Prop where
+  conj : ∀ x, U (-x) = cconj (U x)
+  period : ∀ (x : Rat) (k : Int), U (x + (k : Rat)) = U x
+
+/-- phases of `operators.laplacian` -/
+def lapPhase (order : Nat) (tr : Nat → Nat → Rat) (i j : Nat) : Rat := (order : Rat) * ((tr i j - tr j i) - 1 / 2)
+
+/-- the three half-edges of a face, as entries of the round-1 model (`FF.entryVert`) -/
+def lapFaceEntriesM (U : Rat → Cpx) (order : Nat) (cotan : Bool) (cot : Nat → Nat → Rat) (tr : Nat → Nat → Rat) (it : Nat × Nat × Nat × Nat) : List Entry :=
+  let w := fun v => if cotan then cot it.1 v / 2 else (1 : Rat) / 2
+  [entryVert it.2.1 it.2.2.1 (w it.2.2.2) (U (lapPhase order tr it.2.1 it.2.2.1)) (U (lapPhase order tr it.2.2.1 it.2.1)),
+   entryVert it.2.2.1 it.2.2.2 (w it.2.1) (U (lapPhase order tr it.2.2.1 it.2.2.2)) (U (lapPhase order tr it.2.2.2 it.2.2.1)),
+   entryVert it.2.2.2 it.2.1 (w it.2.2.1) (U (lapPhase order tr it.2.2.2 it.2.1)) (U (lapPhase order tr it.2.1 it.2.2.2))]
+
+def lapEntriesM (U : Rat → Cpx) (order : Nat) (cotan : Bool) (faces : List (Nat × Nat × Nat × Nat)) (cot : Nat → Nat → Rat) (tr : Nat → Nat → Rat) : List Entry :=
+  faces.flatMap (lapFaceEntriesM U order cotan cot tr)
+
+/-- `(Nabla.conj().T @ D @ Nabla)[a,b]` restricted to one row of `Nabla` with weight `w` -/
+def rowGram (w : Rat) (row : List (Nat × Cpx)) (a b : Nat) : Cpx :=
+  csum (row.flatMap (fun x => row.map (fun y => if a = x.1 ∧ b = y.1 then csmul w (cmul (cconj x.2) y.2) else czero)))
+
+def gramCoeff (weight : Nat → Rat) (rows : List (Nat × List (Nat × Cpx))) (a b : Nat) : Cpx :=
+  rows.foldr (fun r acc => cadd (rowGram (weight r.1) r.2 a b) acc) czero
+
+/-- interior edges as entries of the round-1 model (`FF.entryFace`) -/
+def triEntriesM (U : Rat → Cpx) (order : Nat) (weight : Nat → Rat) (edges : List (Nat × Option Nat × Option Nat)) (tr : Nat → Nat → Rat) : List Entry :=
+  edges.filterMap (fun it => match it.2.1, it.2.2 with
+    | some T1, some T2 => some (entryFace T1 T2 (weight it.1) (U ((order : Rat) * tr T1 T2)))
+    | _, _ => none)
+
 /-! ## the vertex-based `flag_singularities` (angles in TURNS) -/
 /-- the python dict `edge_rot` keyed by directed vertex pairs (a missing key reads 0; the source never reads one) -/
 abbrev Dict := Nat → Nat → Rat
